@@ -1397,13 +1397,13 @@ Proof.
         change l with (upd_nth i (fun c => c <| cb_watch := WDone |>) (cbs s)) in E end.
       rewrite (nth_error_upd_nth_eq _ _ _ _ N) in E. injection E as <- _.
       unfold pot. cbn [ops cbs countb ret_of is_final].
-      change (ops (s <| cbs ::= upd_nth i (fun c => c <| cb_watch := WDone |>) |>
-                     <| cbs ::= upd_nth i (fun c => wake_watch (c <| cb_slot := Some v |>)) |>
+      change (ops (s <| cbs ::= upd_nth i (fun x => x <| cb_watch := WDone |>) |>
+                     <| cbs ::= upd_nth i (fun y => wake_watch (y <| cb_slot := Some v |>)) |>
                      <| calls ::= assoc_del (cb_id cb0) |>)) with (ops s).
-      change (cbs (s <| cbs ::= upd_nth i (fun c => c <| cb_watch := WDone |>) |>
-                     <| cbs ::= upd_nth i (fun c => wake_watch (c <| cb_slot := Some v |>)) |>
+      change (cbs (s <| cbs ::= upd_nth i (fun x => x <| cb_watch := WDone |>) |>
+                     <| cbs ::= upd_nth i (fun y => wake_watch (y <| cb_slot := Some v |>)) |>
                      <| calls ::= assoc_del (cb_id cb0) |>))
-        with (upd_nth i (fun c => wake_watch (c <| cb_slot := Some v |>)) (upd_nth i (fun c => c <| cb_watch := WDone |>) (cbs s))).
+        with (upd_nth i (fun y => wake_watch (y <| cb_slot := Some v |>)) (upd_nth i (fun x => x <| cb_watch := WDone |>) (cbs s))).
       rewrite upd_nth_upd_nth.
       pose proof (countb_upd_nth (live_n n) i (fun x => wake_watch ((x <| cb_watch := WDone |>) <| cb_slot := Some v |>)) (cbs s) cb0 N) as CU.
       assert (L1 : live_n n (wake_watch ((cb0 <| cb_watch := WDone |>) <| cb_slot := Some v |>)) = false).
@@ -1483,4 +1483,81 @@ Example returns_once_nonvacuous :
     NoDup (push_nums (tr_callback ++ [LRelPush 5])) /\ count_final 5 oss = 1.
 Proof.
   eexists. eexists. split; [vm_compute; reflexivity|]. split; [cbn; repeat constructor; auto|reflexivity].
+Qed.
+
+(** * C09.3 (second half) quiescent completeness *)
+Lemma idxs_where_in {A} (p : A -> bool) : forall l b i x,
+  nth_error l i = Some x -> p x = true -> In (b + i) (idxs_where p b l).
+Proof.
+  induction l as [|y l IH]; intros b [|i] x N P; cbn in *; try discriminate.
+  - injection N as ->. rewrite P. cbn. left. lia.
+  - apply in_app_iff. right. replace (b + S i) with (S b + i) by lia. eapply IH; eauto.
+Qed.
+
+Lemma step_enabled s l : crash s = None -> step_raw s l <> None -> step s l <> None.
+Proof.
+  intros C H. unfold step. rewrite C. destruct (step_raw s l) as [[s1 os1]|]; [|congruence].
+  destruct (crash s1); [discriminate|]. destruct (settle _ s1 os1). discriminate.
+Qed.
+
+Lemma parked_watcher_enabled s i c :
+  crash s = None -> nth_error (cbs s) i = Some c -> cb_watch c = WParked -> quiescent s = false.
+Proof.
+  intros C N W. unfold quiescent.
+  assert (I : In (LRelCbWatch i) (enabled_rel s)).
+  { unfold enabled_rel. apply filter_In. split.
+    - apply in_flat_map. exists SCbWatch. split; [cbn; tauto|].
+      cbn. apply in_map. apply (idxs_where_in watch_parked (cbs s) 0 i c N). unfold watch_parked. rewrite W. auto.
+    - destruct (step s (LRelCbWatch i)) eqn:E; auto.
+      exfalso. revert E. apply step_enabled; auto. cbn. rewrite N, W.
+      destruct (assoc _ _); [|discriminate]. destruct (cb_slot c); [discriminate|].
+      destruct (_ =? _); [|discriminate]. destruct (cb_ctx c) as [[|]|]; discriminate. }
+  destruct (enabled_rel s); [destruct I|reflexivity].
+Qed.
+
+(* In a quiescent state every callback that is still outstanding has a live context and a
+   running server: whenever the context ended or the server stopped, the callback has been
+   completed (C09.6 covers the third way: an arriving reply completes it in its window). *)
+Lemma quiescent_complete c s k i :
+  reach c s -> crash s = None -> quiescent s = true -> In (k, i) (calls s) ->
+  exists cb0, nth_error (cbs s) i = Some cb0 /\ cb_id cb0 = k /\
+    cb_ctx cb0 = None /\ cb_cancelled cb0 = false /\ running s = true.
+Proof.
+  intros R C Q I. pose proof (inv_push_reach _ _ R) as IP.
+  destruct (ip_reg _ IP _ _ I) as (cb0 & N & Eid & (O1 & O2 & O3 & O4 & O5)).
+  exists cb0. split; auto. split; auto.
+  destruct (cb_cancelled cb0) eqn:CC.
+  - rewrite (parked_watcher_enabled _ _ _ C N O3) in Q. discriminate.
+  - repeat split.
+    + destruct (cb_ctx cb0); auto. assert (X : false = true) by (apply O4; discriminate). discriminate X.
+    + destruct (running s); auto.
+Qed.
+
+(* after a stop every outstanding callback is cancelled and its watcher is parked (enabled) *)
+Lemma stopped_callbacks_cancelled c s k i :
+  reach c s -> running s = false -> In (k, i) (calls s) ->
+  exists cb0, nth_error (cbs s) i = Some cb0 /\ cb_cancelled cb0 = true /\ cb_watch cb0 = WParked.
+Proof.
+  intros R Run I. destruct (ip_reg _ (inv_push_reach _ _ R) _ _ I) as (cb0 & N & _ & (_ & _ & O3 & _ & O5)).
+  exists cb0. rewrite (O5 Run) in O3. auto.
+Qed.
+
+Example quiescent_complete_nonvacuous :
+  exists s, reach cfg_push s /\ crash s = None /\ quiescent s = true /\ calls s = [([49]%N, 0)] /\ running s = true.
+Proof.
+  destruct (run_state cfg_push (tr_callback ++ [LRelPush 5; LRelNext])) as [s|] eqn:E; [|discriminate E].
+  exists s. split; [eapply run_state_reach; eauto|].
+  vm_compute in E. injection E as <-. vm_compute. repeat split.
+Qed.
+
+(* and the other side: stop with a callback outstanding; once the state is quiescent again
+   the callback has returned with the cancellation error *)
+Example stop_completes_nonvacuous :
+  exists s oss, run (init_of cfg_push) (tr_callback ++ [LRelPush 5; LCallStop 6; LRelStop 6; LRelCbWatch 0; LRelNext])
+                = Some (s, oss) /\
+    quiescent s = true /\ running s = false /\ calls s = [] /\ count_final 5 oss = 1 /\
+    In [ORet 5 (ACbCtx WCancel)] oss.
+Proof.
+  eexists. eexists. split; [vm_compute; reflexivity|]. vm_compute. repeat split; auto.
+  do 5 right. left. reflexivity.
 Qed.
